@@ -43,7 +43,19 @@ THEOREMS = [
     "JanetModel.Props.C05.with_runs_exactly_once",
     "JanetModel.Props.C05.with_is_defer",
     "JanetModel.Props.C05.priv_is_needed",
-    "JanetModel.Props.C05.try_catch_runs_exactly_once_partial",
+    "JanetModel.Props.C05.try_arrival",
+    "JanetModel.Props.C05.macro_runs_exactly_once",
+    "JanetModel.Props.C05.try_catch_runs_exactly_once",
+    "JanetModel.Props.C05.try_catch_iff_error",
+    "JanetModel.Props.C05.try_mask_facts",
+    "JanetModel.Props.C05.protect_runs_exactly_once",
+    "JanetModel.Props.C05.prompt_runs_exactly_once",
+    "JanetModel.Props.C05.prompt_mask_facts",
+    "JanetModel.Props.C05.with_dyns_runs_exactly_once",
+    "JanetModel.Props.C05.generate_mask_not_accFin",
+    "JanetModel.Props.C05.propagate_reraises_original",
+    "JanetModel.Props.C05.raise_is_unwind",
+    "JanetModel.Props.C05.defer_propagate_reraises_original",
     "JanetModel.Props.C05.dyn_visibility",
     "JanetModel.Fiber.step_res",
     "JanetModel.Fiber.step_G",
